@@ -4,7 +4,7 @@ from __future__ import annotations
 from fractions import Fraction as F
 
 from .common import Run, bool_s, frac_s, guarded, list_s, opt_s, run_driver
-from .c20 import TOL2, TOL6, grid_oracle, isx, near, ref_snap_grid
+from .c20 import NONDY, TOL2, TOL6, grid_oracle, isx, near, ref_snap_grid, ref_snap_grid_float, ulp3
 
 META = {
     "claimed": True,
@@ -451,12 +451,14 @@ def run(R: Run):
             R.oracle(eq == gb_s(gb), "from-geopolygon-differs-from-from-bbox", case,
                      f"from_geopolygon = {gb_s(gb)} but from_bbox(poly.boundingbox, same options) = {eq}", sig="poly-equiv")
             if shape is None:
-                bbox_oracle(R, gb, bb, (rx, ry), sn, tol, F(0), case, "from-geopolygon")
+                sl_ = F(0) if exact else F(1, 10**9)
+                bbox_oracle(R, gb, bb, (rx, ry), sn, tol, sl_, case, "from-geopolygon" if exact else "from-geopolygon-float")
                 A, (ny, nx) = gb.affine, gb.shape
                 xlo, xhi = sorted([F(A.c), F(A.c) + nx * F(A.a)])
                 ylo, yhi = sorted([F(A.f), F(A.f) + ny * F(A.e)])
-                inside = all(xlo - tol * abs(rx) <= x <= xhi + tol * abs(rx) and ylo - tol * abs(ry) <= y <= yhi + tol * abs(ry)
-                             for x, y in pts)
+                sxx, syy = max(abs(bb[0]), abs(bb[2]), abs(rx)) * sl_, max(abs(bb[1]), abs(bb[3]), abs(ry)) * sl_
+                inside = all(xlo - tol * abs(rx) - sxx <= x <= xhi + tol * abs(rx) + sxx
+                             and ylo - tol * abs(ry) - syy <= y <= yhi + tol * abs(ry) + syy for x, y in pts)
                 R.oracle(inside, "from-geopolygon-vertex-outside", case, f"extent x[{float(xlo)},{float(xhi)}] y[{float(ylo)},{float(yhi)}]",
                          sig="poly-covers")
             else:
@@ -674,6 +676,45 @@ def run(R: Run):
             R.oracle(eq == gb_s(zo[0]), "zoom-to-resolution-differs-from-from-bbox", case,
                      f"zoom_to(resolution=) = {gb_s(zo[0])} but from_bbox(boundingbox, resolution=, tight=True) = {eq}", sig="zoom-equiv")
             bbox_oracle(R, zo[0], bb, (rx, ry), None, TOL2, F(0), case, "zoom-to-resolution")
+
+    # ---------------- non-dyadic pixel sizes, region edges EXACTLY on k*|res| (+ anchor) as doubles and one ulp either side
+    # (float stream): two-sided against the documented formula evaluated in binary64 in the code's operation order,
+    # the property predicates with slack, and from_geopolygon == from_bbox(poly.boundingbox) for the same options
+    fl_anchors = [Anch("s", "default"), Anch("s", "center"), Anch("e", "floating"), Anch("n", F(0.25)), Anch("x", (F(0.1), F(0.5)))]
+    for _ in range(R.pick(2500, 25000)):
+        rxf, ryf = rng.choice([-1, 1]) * rng.choice(NONDY), rng.choice([-1, 1]) * rng.choice(NONDY)
+        anch = rng.choice(fl_anchors)
+        tight = rng.random() < 0.15
+        sn = anch.snap(tight)
+        tolf = rng.choice([0.0, 0.0, 1e-6, 0.01, 1e-3])
+
+        def ends(rf, offp):
+            r_ = abs(rf)
+            o = 0.0 if offp is None else float(offp) * r_
+            k0 = rng.choice([0, 1, 3, 10, 49, -7, rng.randint(-2000, 2000)])
+            k1 = k0 + rng.choice([1, 2, 10, 100, rng.randint(1, 5000)])
+            a = rng.choice(ulp3(k0 * r_ + o) + ulp3(k0 * r_))
+            c = rng.choice(ulp3(k1 * r_ + o) + ulp3(k1 * r_))
+            return (a, c) if a <= c else (c, a)
+
+        l, r = ends(rxf, None if sn is None else sn[0])
+        b, t = ends(ryf, None if sn is None else sn[1])
+        bbF = tuple(F(v) for v in (l, b, r, t))
+        gx = ref_snap_grid_float(l, r, rxf, None if sn is None else float(sn[0]), tolf)
+        gy = ref_snap_grid_float(b, t, ryf, None if sn is None else float(sn[1]), tolf)
+        want = "ERR" if "ERR" in (gx, gy) else (gy[1], gx[1], (rxf, 0.0, gx[0], 0.0, ryf, gy[0]))
+        try:
+            g = GeoBox.from_bbox((l, b, r, t), CRS, tight=tight, resolution=resxy_(rxf, ryf), anchor=anch.py(GB, xy_), tol=tolf)
+            got = (int(g.shape[0]), int(g.shape[1]), tuple(float(v) for v in tuple(g.affine)[:6]))
+        except Exception:  # pylint: disable=broad-except
+            got = "ERR"
+        R.oracle(got == want, "from-bbox-differs-from-float-reference",
+                 {"fn": "GeoBox.from_bbox", "floats": repr(((l, b, r, t), (rxf, ryf), anch.tok(), tight, tolf))},
+                 f"from_bbox = {got} but the documented formula in binary64 gives {want}", sig="bbox-float-ref")
+        call(bbF, tight, None, (F(rxf), F(ryf)), anch, F(tolf), "nondyadic-float", False, F(1, 10**9))
+        if rng.random() < 0.3:
+            poly_case([(bbF[0], bbF[1]), (bbF[2], bbF[1]), (bbF[2], bbF[3])], F(rxf), F(ryf), (F(rxf), F(ryf)), None, None, tight, anch,
+                      F(tolf), "nondyadic-float", exact=False)
 
     # ---------------- float stream: arbitrary doubles, Fraction oracle only
     for _ in range(R.pick(3000, 30000)):
